@@ -235,6 +235,11 @@ func (st *state) validate(instance reflect.Value, schema *Schema, callerAnns *an
 				}
 			}
 			if dynamicSchema == nil {
+				// No schema resource in the dynamic scope has the anchor, so the
+				// reference is not replaced: it refers to its initial target.
+				dynamicSchema = schemaInfo.dynamicRefInitial
+			}
+			if dynamicSchema == nil {
 				return fmt.Errorf("missing dynamic anchor %q", schemaInfo.dynamicRefAnchor)
 			}
 			if err := st.validate(instance, dynamicSchema, &anns); err != nil {
@@ -673,6 +678,11 @@ func (st *state) resolveDynamicRef(schema *Schema) (*Schema, error) {
 		if ok && info.dynamic {
 			return info.schema, nil
 		}
+	}
+	if info.dynamicRefInitial != nil {
+		// No schema resource in the dynamic scope has the anchor, so the
+		// reference is not replaced: it refers to its initial target.
+		return info.dynamicRefInitial, nil
 	}
 	return nil, fmt.Errorf("missing dynamic anchor %q", info.dynamicRefAnchor)
 }
